@@ -250,7 +250,7 @@ func c09Exec(c *core.Ctx, cs c09Case) {
 }
 
 func c09Gen(c *core.Ctx) {
-	n := c.Pick(5000, 40000)
+	n := c.Pick(5000, 150000)
 	for i := 0; i < n; i++ {
 		if !c.Mine() {
 			continue
